@@ -104,6 +104,8 @@ def c10_check_term(case: dict, obs: dict) -> str | None:
     if obs["kind"] != "ok" or case["p"] <= 0 or case["eps"] <= 0:
         return None
     n, p, q, eps = mfh.case_n(case), case["p"], case["q"], case["eps"]
+    if obs["X"].numel() != n * n or len(case["A"]) != n * n:
+        return None
     X = obs["X"].reshape(n, n)
     if not bool(torch.isfinite(X).all()):
         return "false"
